@@ -176,4 +176,98 @@ theorem rule_error (E : Env) (k : OK ρ) (n : Nat) (r : ρ) (s : St) (pos : Nat)
       cases res <;> skel_simp
       split <;> rfl
 
+/-! ### loops -/
+
+/-- what one iteration of the RULE_BETWEEN loop body does to the state and to the locals that matter -/
+def BetweenBody (k : OK ρ) (r : ρ) (hi : Nat) (body : Loc → St → Except Err Out) : Prop :=
+  ∀ (L : Loc) (s : St) (c pos : Nat), L.num 0 = c → L.ptr 0 = some pos →
+    match k r s pos with
+    | .error e => body L s = .error e
+    | .ok (none, s1) => ∃ L1, body L s = .ok (.brk L1 (capLoad s1 (capSave s))) ∧ L1.num 0 = c ∧ L1.ptr 0 = some pos ∧ L1.cs 0 = L.cs 0
+    | .ok (some p, s1) =>
+      if p = pos ∧ hi = uintMax then
+        ∃ L1, body L s = .ok (.brk L1 (capLoad s1 (capSave s))) ∧ L1.num 0 = c ∧ L1.ptr 0 = some pos ∧ L1.cs 0 = L.cs 0
+      else ∃ L2, body L s = .ok (.cont L2 s1) ∧ L2.num 0 = c + 1 ∧ L2.ptr 0 = some p ∧ L2.cs 0 = L.cs 0
+
+theorem between_loop (k : OK ρ) (r : ρ) (hi : Nat) (cond : Loc → St → Bool) (body : Loc → St → Except Err Out)
+    (hcond : ∀ L s, cond L s = decide (L.num 0 < hi)) (hbody : BetweenBody k r hi body) :
+    ∀ (n c : Nat) (s : St) (pos : Nat) (L : Loc), L.num 0 = c → L.ptr 0 = some pos →
+      (∃ e, Op.betweenLoop k r hi n c s pos = .error e ∧ loopN cond body n L s = .error e) ∨
+      (∃ c' p' s' L', Op.betweenLoop k r hi n c s pos = .ok (c', p', s') ∧ loopN cond body n L s = .ok (.cont L' s') ∧
+        L'.num 0 = c' ∧ L'.ptr 0 = some p' ∧ L'.cs 0 = L.cs 0) := by
+  intro n
+  induction n with
+  | zero => intro c s pos L _ _; left; exact ⟨.fuel, rfl, rfl⟩
+  | succ n ih =>
+    intro c s pos L hc hp
+    simp only [Op.betweenLoop, loopN, hcond, hc]
+    by_cases hlt : c < hi
+    · simp only [hlt, if_true, decide_true]
+      have hb := hbody L s c pos hc hp
+      cases hk : k r s pos with
+      | error e =>
+        simp only [hk] at hb
+        left; exact ⟨e, by simp [bind, Except.bind], by simp [hb, bind, Except.bind]⟩
+      | ok x =>
+        obtain ⟨res, s1⟩ := x
+        cases res with
+        | none =>
+          simp only [hk] at hb
+          obtain ⟨L1, h1, h2, h3, h4⟩ := hb
+          right; exact ⟨c, pos, capLoad s1 (capSave s), L1, by simp [bind, Except.bind], by simp [h1, bind, Except.bind], h2, h3, h4⟩
+        | some p =>
+          simp only [hk] at hb
+          by_cases hq : (p = pos ∧ hi = uintMax)
+          · simp only [hq, and_self, if_true] at hb
+            obtain ⟨L1, h1, h2, h3, h4⟩ := hb
+            right; exact ⟨c, pos, capLoad s1 (capSave s), L1, by simp [bind, Except.bind, hq], by simp [h1, bind, Except.bind], h2, h3, h4⟩
+          · simp only [hq, if_false] at hb
+            obtain ⟨L2, h1, h2, h3, h4⟩ := hb
+            have hq' : ¬ ((p == pos) = true ∧ (hi == uintMax) = true) := by simpa using hq
+            rcases ih (c + 1) s1 p L2 h2 h3 with ⟨e, g1, g2⟩ | ⟨c', p', s', L', g1, g2, g3, g4, g5⟩
+            · left
+              refine ⟨e, ?_, by simp [h1, bind, Except.bind, g2]⟩
+              simp only [bind, Except.bind, if_neg hq', g1]
+            · right
+              refine ⟨c', p', s', L', ?_, by simp [h1, bind, Except.bind, g2], g3, g4, g5.trans h4⟩
+              simp only [bind, Except.bind, if_neg hq', g1]
+    · right
+      exact ⟨c, pos, s, L, by simp [hlt], by simp [hlt], hc, hp, rfl⟩
+
+theorem between_body (E : Env) (k : OK ρ) (r : ρ) (lo hi fuel : Nat) :
+    BetweenBody k r hi (fun L s => execL E k (ops [(3, r)] [(1, lo), (2, hi)]) fuel Gen.PegSkel.RULE_BETWEEN_body0 L s) := by
+  intro L s c pos hc hp
+  simp only [Gen.PegSkel.RULE_BETWEEN_body0, execL, execStmt, evalCond, evalWE, evalNE, ops]
+  cases hk : k r s pos with
+  | error e => simp [hk, hp, opsRule, bind, Except.bind]
+  | ok x =>
+    obtain ⟨res, s1⟩ := x
+    cases res with
+    | none => simp [hk, hp, hc, opsRule, opsWord, bind, Except.bind, upd]
+    | some p =>
+      simp only
+      by_cases hq : (p = pos ∧ hi = uintMax)
+      · simp [hk, hp, hc, hq, opsRule, opsWord, bind, Except.bind, upd]
+      · simp [hk, hp, hc, hq, opsRule, opsWord, bind, Except.bind, upd]
+
+/-- RULE_BETWEEN: at most `hi` iterations, each with its own cap_save; a failing iteration (or an empty one of an unbounded
+    repetition) is rolled back and ends the loop; fewer than `lo` iterations roll everything back -/
+theorem rule_between (E : Env) (k : OK ρ) (n : Nat) (lo hi : Nat) (r : ρ) (s : St) (pos : Nat) :
+    runL E k (ops [(3, r)] [(1, lo), (2, hi)]) n Gen.PegSkel.RULE_BETWEEN s pos = Op.step E k n (.between lo hi r) s pos := by
+  simp only [runL, Gen.PegSkel.RULE_BETWEEN, execL, execStmt, evalNE, Loc.init, Op.step]
+  cases hd : down1 s with
+  | error e => simp [hd, bind, Except.bind]
+  | ok s0 =>
+    simp only [hd, bind, Except.bind]
+    rcases between_loop k r hi (fun L s => evalCond E (ops [(3, r)] [(1, lo), (2, hi)]) L s (.numLtWord 0 (.op 2))) _ (fun L s => by simp [evalCond, evalWE, ops, opsWord]) (between_body E k r lo hi n) n 0 s0 pos
+        { ptr := fun x => if x = 0 then some pos else none, cs := upd (fun _ => ⟨0, 0, 0⟩) 0 (capSave s), val := fun _ => .nil,
+          num := upd (fun _ => 0) 0 0, oldmode := false } (by simp [upd]) (by simp) with
+      ⟨e, g1, g2⟩ | ⟨c', p', s', L', g1, g2, g3, g4, g5⟩
+    · rw [g2]; simp [g1]
+    · rw [g2]
+      simp only [g1, Gen.PegSkel.RULE_BETWEEN_rest0, execL, execStmt, evalCond, evalWE, ops, bind, Except.bind]
+      by_cases hlo : c' < lo
+      · simp [hlo, g3, g4, g5, opsWord, upd]
+      · simp [hlo, g3, g4, g5, opsWord, upd]
+
 end JanetModel.Peg.TieSkel
